@@ -50,6 +50,14 @@ fn arm(kind: &str, payload: &str, payload_ty: &Ty, tag: &str, h: &mut gen::Helpe
             ws.push((n.clone(), Ty::Bool, Val::Bool(false)));
             (vec![Stmt::Expr(match_(Expr::Witness(n), (MPat::True, block(s1, None)), (MPat::False, block(s2, None))))], ws)
         }
+        "nested-then-witness" | "witness-then-nested" => {
+            // a witness read in the outer arm after (before) a complete inner match
+            let (s1, mut ws) = arm("nested", payload, payload_ty, &format!("{tag}n"), h);
+            let (s2, ws2) = arm("eq-witness", payload, payload_ty, &format!("{tag}z"), h);
+            ws.extend(ws2);
+            let stmts = if kind == "nested-then-witness" { s1.into_iter().chain(s2).collect() } else { s2.into_iter().chain(s1).collect() };
+            (stmts, ws)
+        }
         k if k.starts_with("array-") => {
             // an arm-local array witness of awkward length, destructured; first and last element checked
             // "array-<bits>-<len>"
@@ -83,8 +91,9 @@ fn arm(kind: &str, payload: &str, payload_ty: &Ty, tag: &str, h: &mut gen::Helpe
     }
 }
 
-const ARM_KINDS: [&str; 14] = [
+const ARM_KINDS: [&str; 16] = [
     "eq-witness", "lock-height-witness", "lock-height-const", "lock-distance-const", "lock-time-witness", "panic", "nothing", "unused-witness", "nested",
+    "nested-then-witness", "witness-then-nested",
     // wide / awkwardly sized witnesses inside an arm: byte strings just above one and two 256-bit words, odd lengths
     "array-8-33", "array-8-65", "array-16-5", "array-8-48", "tuple-5",
 ];
